@@ -24,6 +24,8 @@
       Fields: fo_zero fo_one fo_add fo_sub fo_mul fo_neg fo_inv fo_inv0 fo_eqb fo_inj fo_from fo_pow
       (statements below).  Generic algorithms are proved in a Section with hypothesis
       `field_ok ops fk ok den`; the base-field instance is  proofs/BFieldOk.v : bfe_field_ok.
+        kops fk : fops K,  kact fk : fact K K   the ideal operations record of the field itself
+        kops_field_ok : field_ok (kops fk) fk (fun _ => True) (fun x => x)
    3. The concrete prime field  Fp = { x : Z | 0 <= x < P } (P = 2^64 - 2^32 + 1, Lucas.P):
         fp_of : Z -> Fp (reduction mod P)   fval : Fp -> Z   Fp_eq : fval a = fval b -> a = b
         fp_field : fieldK Fp                 (field axioms from Lucas.fermat)
@@ -226,6 +228,22 @@ Section FieldOkFacts.
       destruct (fo_inv _ _ _ _ H a Ha Hn) as [y [E1 [E2 E3]]]. rewrite E1. split; assumption.
   Qed.
 End FieldOkFacts.
+
+(* the operations record of an abstract field itself (the "ideal" instance generic algorithms are compared with) *)
+Definition kops {K : Type} (fk : fieldK K) : fops K :=
+  mk_fops K (k0 fk) (k1 fk) (kadd fk) (ksub fk) (kmul fk) (kopp fk)
+    (fun x => if keq_dec fk x (k0 fk) then None else Some (kinv fk x))
+    (fun x y => if keq_dec fk x y then true else false)
+    (kofZ fk) (kpowZ fk) (fun _ => None).
+Definition kact {K : Type} (fk : fieldK K) : fact K K := mk_fact K K (kmul fk) (fun x => x).
+Lemma kops_field_ok {K : Type} (fk : fieldK K) : field_ok (kops fk) fk (fun _ => True) (fun x => x).
+Proof.
+  constructor; cbn [kops fzero fone fadd fsub fmul fneg finv feqb ffrom_u64 fpow]; try (intros; split; [exact I|reflexivity]).
+  - intros a _ Hn. exists (kinv fk a). destruct (keq_dec fk a (k0 fk)); [contradiction|]. repeat split.
+  - intros a _ Hz. destruct (keq_dec fk a (k0 fk)); [reflexivity|contradiction].
+  - intros a b _ _. destruct (keq_dec fk a b); split; intros; congruence.
+  - intros a b _ _ H. exact H.
+Qed.
 
 (* ------------------------------------------------------------------ the prime field Fp *)
 Definition inFp (x : Z) : bool := (0 <=? x) && (x <? P).
